@@ -43,6 +43,7 @@ type Options struct {
 	NoDefaultIgnore       bool
 	BannerFile            string
 	ProductionPump        bool // use the production processOutbox (never terminates: only outside bubbles)
+	Keepalive             bool // run the production idle/keep-alive handler (10 s ticker) for the life of the world
 }
 
 type World struct {
@@ -59,6 +60,7 @@ type World struct {
 
 	ctx      context.Context
 	cancel   context.CancelFunc
+	kaDone   chan struct{}
 	pumpStop chan struct{}
 	pumpDone chan struct{}
 	sendWG   sync.WaitGroup
@@ -251,6 +253,13 @@ func (w *World) build() error {
 // processOutbox that calls the production sendTransaction for every transaction.
 func (w *World) Start() {
 	w.ctx, w.cancel = context.WithCancel(context.Background())
+	if w.opt.Keepalive {
+		w.kaDone = make(chan struct{})
+		go func() {
+			defer close(w.kaDone)
+			w.Srv.VerifKeepaliveHandler(w.ctx)
+		}()
+	}
 	if w.opt.ProductionPump {
 		go w.Srv.VerifProcessOutbox()
 		return
@@ -316,6 +325,10 @@ func (w *World) stopPump() {
 	}
 	if w.cancel != nil {
 		w.cancel()
+	}
+	if w.kaDone != nil {
+		<-w.kaDone
+		w.kaDone = nil
 	}
 	Quiesce()
 }
